@@ -51,6 +51,6 @@ def demoDisconnect : List Act :=
    .p .pPeerClose, .p .pFetch, .p (.pDo true), .p (.pRead 0), .p (.pAck 0), .p .pHup, .p (.pDet 1), .p .pHDone,
    .h (.hCas true), .h (.hRd true), .h (.hWr true), .h (.hGet 1), .h (.hConn true), .h (.hSt true), .h .hODe2, .h .hODx2, .h .hUnl,
    .h (.hLock true), .b .cbEnterU, .b .cbExitU, .b .cbEnterF, .b (.cbF1 true), .b (.cbF2 true), .b (.cbF3 1), .b (.cbF3b 0),
-   .b .cbF3c, .b (.cbF4 0), .b .cbF4b, .b .cbFx]
+   .b .cbF3c, .b (.cbF4n 0), .b .cbF4b, .b .cbFx]
 
 end Netpoll.Conn.LifeDemos
